@@ -31,6 +31,7 @@ type Oblig struct {
 	Note  string
 	// Report terms: values to print from a model.
 	Report map[string]*smt.Term
+	Region string // name of the region contract the obligation belongs to ("" for whole-function obligations)
 	Trivial bool
 	pc      *pcNode
 	Seq     int
